@@ -25,3 +25,6 @@ for f in sorted(os.listdir(d)):
         subprocess.run(['git', '-C', '/repo', 'checkout', '--', '.'])
     print(f, {k: v for k, v in res.items() if v})
 print('violations on benign edits:', bad)
+# evidence files written while a change was applied are not evidence about the tree: restore the committed ones
+import subprocess as _sp
+_sp.run(['git', '-C', '/verif', 'checkout', '--', 'evidence'])
